@@ -15,6 +15,13 @@ static pthread_mutex_t m = PTHREAD_MUTEX_INITIALIZER;
 static unsigned long   live, bytes, badfree, total, fired;
 static long            fail_in;
 
+// VALLOC_LEAKS=1: remember where every block was allocated, valloc_dump_live() prints the
+// allocation backtraces of the blocks still held (diagnosis of a non-zero balance)
+#include <execinfo.h>
+#define BTN 14
+static void *(*bts)[BTN];
+static int    bt_on = -1;
+
 static unsigned
 slot(void *p)
 {
@@ -30,6 +37,16 @@ ins(void *p, size_t sz)
 	}
 	tab[h].p  = p;
 	tab[h].sz = sz;
+	if (bt_on < 0) {
+		bt_on = getenv("VALLOC_LEAKS") != NULL;
+		if (bt_on) {
+			bts = calloc(TAB, sizeof(*bts));
+		}
+	}
+	if (bt_on && bts != NULL) {
+		memset(bts[h], 0, sizeof(bts[h]));
+		backtrace(bts[h], BTN);
+	}
 	live++;
 	bytes += sz;
 }
@@ -40,6 +57,12 @@ should_fail(void)
 	total++;
 	if (fail_in > 0 && --fail_in == 0) {
 		fired++;
+		if (getenv("VALLOC_LEAKS") != NULL) {
+			void *bt[BTN];
+			int   n = backtrace(bt, BTN);
+			fprintf(stderr, "VALLOC: allocation %lu fails at\n", total);
+			backtrace_symbols_fd(bt, n, 2);
+		}
 		return (1);
 	}
 	return (0);
@@ -147,4 +170,22 @@ valloc_reset_counters(void)
 	badfree = 0;
 	total   = 0;
 	pthread_mutex_unlock(&m);
+}
+
+void
+valloc_dump_live(void)
+{
+	if (bts == NULL) {
+		return;
+	}
+	for (unsigned h = 0; h < TAB; h++) {
+		if (tab[h].p != NULL && tab[h].p != (void *) 1) {
+			int n = 0;
+			while (n < BTN && bts[h][n] != NULL) {
+				n++;
+			}
+			fprintf(stderr, "VALLOC: live block %p size %zu allocated at\n", tab[h].p, tab[h].sz);
+			backtrace_symbols_fd(bts[h] + 2, n > 2 ? n - 2 : 0, 2);
+		}
+	}
 }
